@@ -830,15 +830,15 @@ mod verif_trust {
             );
         }
         t.check("c_unquote_spec (coverage)", "every created file is named by exactly one header", json!({}), json!(0), json!(unmatched.len()));
-        // the pipeline on the same diff: the keys of line_changes_from_diff are the real names (lossy for invalid UTF-8)
+        // the pipeline on the same diff: the keys of line_changes_from_diff are the real names, BYTE for byte
+        // (unquote_bytes_spec + path_of_bytes: also for the names that are not valid UTF-8)
         let diff_text = String::from_utf8_lossy(&diff).to_string();
         if let Ok(map) = crate::diff_parser::line_changes_from_diff(&diff_text) {
-            let keys: std::collections::BTreeSet<String> = map.keys().map(|k| k.to_string_lossy().to_string()).collect();
+            use std::os::unix::ffi::OsStrExt;
+            let keys: std::collections::BTreeSet<Vec<u8>> = map.keys().map(|k| k.as_os_str().as_bytes().to_vec()).collect();
             for n in &names {
-                if let Ok(s) = std::str::from_utf8(n) {
-                    // names with a newline / a leading quote etc. are exactly the interesting ones
-                    t.check("unquote_spec through line_changes_from_diff", "the key of the file is the path as git meant it", json!({"file_name": s}), json!(true), json!(keys.contains(s)));
-                }
+                // names with a newline / a leading quote / invalid UTF-8 etc. are exactly the interesting ones
+                t.check("unquote_bytes_spec through line_changes_from_diff", "the key of the file is the path as git meant it, byte for byte", json!({"file_name_lossy": String::from_utf8_lossy(n), "file_name_bytes": n}), json!(true), json!(keys.contains(n)));
             }
         }
         t.finish("real `git diff --cached` headers of 271 files: one name for every byte 0x01..=0xff except `/`, 15 combinations (TAB, LF, quote, backslash, space, non-ASCII, DEL, literal escape look-alikes, leading quote, trailing backslash, sub-directories), 2 names that are not valid UTF-8; c_unquote_spec and git_quoted_wf transcribed from prelude/diff_unquote.rs; plus the keys of line_changes_from_diff on that diff");
